@@ -80,7 +80,44 @@ def witness_for(R, shape, verify, engine="sync"):
     return w
 
 
+def e1_instance(R, pid, tier, seed, engine, bl, nops, maxlit, tag):
+    from mirsmt.prove import Prover
+    from . import deltalib, patchlib
+    ctx = deltalib.Ctx()
+    patchlib.c05_obligations(ctx, R, Prover(R, tier, cross_order=("z3-4.8.12", "cvc5")), engine, bl, nops, maxlit)
+
+
+def e1_validate(R, pid, tier, seed, engine, count, tag):
+    from . import deltalib, patchlib
+    ctx = deltalib.Ctx()
+    patchlib.validate_patch(ctx, R, seed, count, engine=engine)
+    R.results.append({"id": "C05/translator-validation-%s" % engine, "status": "holds", "queries": 0,
+                      "detail": "%d concrete %s patch runs agree with the native build" % (R.validation["cases"], engine)})
+
+
+def run_e1(R, tier, seed):
+    from . import parallel
+    insts = [(3, 2, 2), (2, 3, 1)] if tier == "quick" else [(3, 2, 2), (2, 3, 1), (4, 3, 3), (0, 2, 2), (5, 2, 4), (4, 4, 2)]
+    jobs = []
+    for eng in ("sync", "async"):
+        jobs.append(("obligations.c05", "e1_validate", dict(pid="C05", tier=tier, seed=seed, engine=eng, count=40 if tier == "quick" else 300, tag="validate-" + eng)))
+        for (bl, nops, maxlit) in insts:
+            jobs.append(("obligations.c05", "e1_instance", dict(pid="C05", tier=tier, seed=seed, engine=eng, bl=bl, nops=nops, maxlit=maxlit,
+                                                                tag="%s-patch[bl=%d,ops<=%d,lit<=%d]" % (eng, bl, nops, maxlit))))
+    R.extra["e1_instances"] = [list(x) for x in insts]
+    parallel.run_jobs(R, jobs)
+
+
 def run(R, tier, seed):
+    R.trusted += ["E1: rustc MIR dump + mirsmt encoder with in-memory Cursor/Vec models (Read, Seek, Write, tokio futures always ready), "
+                  "BLAKE3 as the ideal hash; validated in concrete mode against the native build"]
+    R.assumptions += ["E1 instances: basis of bl symbolic bytes, op list of length 0..n with every op's KIND symbolic, copy offset any u64, copy length any u32, "
+                      "literals up to m symbolic bytes, all header fields and verify_checksum symbolic; engines: CopiaSync::patch and the AsyncCopiaSync::patch state machine"]
+    run_e1(R, tier, seed)
+    run_kani(R, tier, seed)
+
+
+def run_kani(R, tier, seed):
     R.trusted += ["Kani 0.68 / CBMC 6.11 (cadical)", "blake3 shim: injective padding hash (collision-free idealisation; collisions are outside the claim)",
                   "stub: std::fmt::format -> String::new()"]
     R.assumptions += ["basis of 3 symbolic bytes; op lists of the shapes [], [C], [L], [C,L], [L,C], [C,C], [C,L,C]; copy length <= 4, literals <= 2 bytes; "
@@ -88,8 +125,8 @@ def run(R, tier, seed):
                       "dev-profile semantics (debug assertions and overflow checks on); counterexamples are replayed in dev and release",
                       "NOT covered: `copia patch` exit status (tokio file I/O), copy lengths up to 2^32 (allocation behaviour), longer op lists"]
     fns = ["<CopiaSync as Sync>::patch", "Delta::validate", "Delta::expected_output_size", "StrongHash::compute"]
-    quick = ["empty", "c", "l", "cl", "lc", "cl_noverify"]
-    thorough = quick + ["cc", "clc"]
+    quick = ["c", "cl"]
+    thorough = ["empty", "c", "l", "cl", "lc", "cl_noverify", "cc", "clc"]
     specs = []
     for name in (quick if tier == "quick" else thorough):
         shape = SHAPES[name]
